@@ -3,6 +3,7 @@
 From Coq Require Import List NArith Arith PeanoNat Lia Bool.
 Import ListNotations.
 From MSP Require Import Base.Src Model.Mszip Proofs.MszipResume Proofs.MszipClean.
+From MSP Require Export Proofs.NoWrite.
 Local Open Scope N_scope.
 
 Section Acct.
@@ -10,7 +11,6 @@ Variables (rule : eofrule) (hint : N).
 Notation run := (ideal rule hint).
 Ltac fold_wr H := repeat match type of H with context [{| irest := irest ?s; iout := rev_append (win_bytes (N.to_nat ?i) ?w ?o []) (iout ?s) |}] =>
   change {| irest := irest s; iout := rev_append (win_bytes (N.to_nat i) w o []) (iout s) |} with (wr i w o s) in H end.
-Definition olen (s : ist) : N := N.of_nat (length (iout s)).
 
 Lemma win_bytes_len : forall n w o, length (win_bytes n w o []) = n.
 Proof.
